@@ -509,6 +509,31 @@ def metamorphic_case(est, kind, n, stream, transforms, collect=None):
     return bad
 
 
+# ---------------------------------------------------------------- 5b. mode sweep (few-hundred-point samples, every scale)
+MODE_TRANSFORMS = [(1.0, 0.0)] + TRANSFORMS
+MODE_KINDS = ("normal", "gamma", "t5")
+
+
+def mode_sweep_case(kind, n, stream, tr):
+    """[R] "The reported mode is a point of maximal estimated density" on a kernel estimate of a few hundred
+    points, where the estimate has local bumps and a search that is bracketed too tightly, or whose tolerance
+    does not follow the scale of the data, stops beside the peak.  Same threshold as everywhere else (0.9 of
+    the largest density on a 4001-point grid over the sample range; measured on the repaired tree: >= 0.98)."""
+    GaussianKDE, _, _ = mods()
+    s = tr[0] * gen_sample(kind, n, C.rng_for(PROP, stream)) + tr[1]
+    with warnings.catch_warnings():
+        warnings.simplefilter("ignore")
+        e = GaussianKDE(s)
+        x = np.linspace(float(s.min()), float(s.max()), 4001)
+        p = np.atleast_1d(e(x))
+        k = int(np.argmax(p))
+        ratio = float(e(e.mode)) / float(p[k])
+    if not ratio >= 0.9:
+        return [f"kde/{kind}/{n} [{tr[0]}*x + {tr[1]}]: density at the reported mode {float(e.mode)!r} is {ratio:.3f} of the "
+                f"density at {float(x[k])!r}"]
+    return []
+
+
 # ---------------------------------------------------------------- 6. interval sweep (small samples, all fractions)
 SWEEP_TIGHT = Fraction(3, 1000)     # mass error above this needs the returned point to be a local optimum of its cost
 SWEEP_LOOSE = Fraction(1, 100)      # mass error above this always alarms
@@ -994,6 +1019,16 @@ def run(rep: C.Report, tier: str) -> int:
     bad = family_affine_failures(C.rng_for(PROP, "family-affine"))
     if bad:
         meta_viol.append((bad[0], {"check": "family-affine"}))
+    rm = C.rng_for(PROP, "mode-sweep")
+    for j in range(42 if quick else 168):
+        kind, n, tr = MODE_KINDS[j % 3], rm.randint(150, 600), MODE_TRANSFORMS[j % len(MODE_TRANSFORMS)]
+        stream = f"mode/{j}/{kind}"
+        rep.count(f"[R] mode sweep {tr[0]:g}*x+{tr[1]:g}")
+        rep.case(("mode", kind, n, tr), nontrivial=True)
+        bad = mode_sweep_case(kind, n, stream, tr)
+        if bad:
+            meta_viol.append((bad[0], {"check": "mode-sweep", "kind": kind, "n": n, "stream": stream, "transform": list(tr)}))
+            break
     rep.coverage["metamorphic_fits_R"] = n_runs
     # ---- integration limits of every unimodal fit above against RealModel.UnimodalCdf (interval goals)
     lgoals = [limit_goal(f"lim_{i}", lim[0], lim[1], lim[2]) for i, (j, t, lim, out) in enumerate(fitted_limits)]
@@ -1337,6 +1372,8 @@ def replay(path):
         bad = sample_property_failures([Fraction(v) for v in rp["sample"]])
     elif chk == "family-affine":
         bad = family_affine_failures(C.rng_for(PROP, "family-affine"))
+    elif chk == "mode-sweep":
+        bad = mode_sweep_case(rp["kind"], rp["n"], rp["stream"], tuple(rp["transform"]))
     elif chk == "typed":
         bad = typed_property_failures(rp["estimator"], rp["kind"], rp["n"], tuple(rp["unit"]), rp["stream"],
                                       rp["method"], rp["form"], rp["index"])
